@@ -102,11 +102,12 @@ Proof. exact algo_page_equiv. Qed.
    (nesting depth of tag definitions), evaluating the inlined conditions against the match/uncertain
    bitmaps gives the intended meaning: decided streams are judged by their bit, undecided ones by the
    tag's definition.  [invert] is ConditionsSet.invert (C03), the uncertain bitmap is consistent with
-   its IsZero. *)
+   its IsZero.  [invert] only has to negate NON-EMPTY sets: the real invert() maps the empty set (a definition that
+   can never match) to the empty set; inlineTagFilter handles that case itself since d05297f and the model follows. *)
 Theorem c02_inlining_preserves_meaning :
   forall (atom tagname : Type) (tags : tagname -> option (tagdetails atom tagname))
          (invert : dnf atom tagname -> dnf atom tagname) (eval_atom : atom -> bool) (sid : N),
-    (forall d, eval_dnf tags eval_atom sid (invert d) = negb (eval_dnf tags eval_atom sid d)) ->
+    (forall d, d <> [] -> eval_dnf tags eval_atom sid (invert d) = negb (eval_dnf tags eval_atom sid d)) ->
     (forall t td, tags t = Some td -> td_uncertain td sid = true -> td_any_uncertain td = true) ->
     forall fuel d d',
       inline_dnf tags invert fuel d = Some d' ->
@@ -119,7 +120,7 @@ Proof. exact inline_preserves. Qed.
 Theorem c02_search_of_inlined_query_finds_the_meaning :
   forall (atom tagname : Type) (tags : tagname -> option (tagdetails atom tagname))
          (invert : dnf atom tagname -> dnf atom tagname) (eval_atom : stream -> atom -> bool) fuel d d' fs,
-    (forall s dd, eval_dnf tags (eval_atom s) (s_id s) (invert dd) = negb (eval_dnf tags (eval_atom s) (s_id s) dd)) ->
+    (forall s dd, dd <> [] -> eval_dnf tags (eval_atom s) (s_id s) (invert dd) = negb (eval_dnf tags (eval_atom s) (s_id s) dd)) ->
     (forall s t td, tags t = Some td -> td_uncertain td (s_id s) = true -> td_any_uncertain td = true) ->
     inline_dnf tags invert fuel d = Some d' ->
     Forall (file_ok (fun s => eval_dnf tags (eval_atom s) (s_id s) d')) fs ->
@@ -260,3 +261,8 @@ Example c02_number_relation_example :
   map (fun m : selmap => m 0) (fst (number_filter 1001 [0] [group_values [-1000; -1001; -1002]%Z] sel)) = [[0; 1]] /\
   snd (number_filter 999 [0] [group_values [-1000; -1001; -1002]%Z] sel) = false.
 Proof. vm_compute. repeat split; reflexivity. Qed.
+
+Example c02_negated_reference_to_never_matching_tag : forall base sid,
+  exists d', inline_dnf wn_tags demorgan 1 [[CTag 0 (mkAccept false true false true)]] = Some d' /\
+             length d' = 2 /\ eval_dnf wn_tags (pe base) sid d' = true.
+Proof. exact negated_empty_definition. Qed.
